@@ -930,6 +930,7 @@ def _serve_forked(case, out):
     if pid == 0:
         try:
             os.close(r)
+            signal.alarm(600)
             try:
                 res = run_case(case)
             except BaseException as e:  # pylint: disable=broad-except
